@@ -6,7 +6,8 @@
 // (block.MarkForDeletion, compact.BlocksCleaner.DeleteMarkedBlocks behind the compactor's meta fetcher,
 // a real block.MetaFetcher with the store gateway's filter chain in the order written in store.go, uploads
 // of real meta.json files, virtual clock of testing/synctest) and after every step the abstraction of the
-// real bucket / gateway view is compared with the model's target state.
+// real bucket / gateway view is compared with the model's target state. The program order of the model's
+// Compactor process is bound to the real compactor by order_test.go.
 package c34
 
 import (
@@ -121,11 +122,14 @@ func TestCheck(t *testing.T) {
 		t.Fatalf("HARNESS-ERROR reading the wiring from %s: %v", repo, err)
 	}
 	r.Rule("TLC explores every reachable state of Compaction.tla for constants scaled from the flag defaults; every edge of the dumped state graph is replayed on the real code " +
-		"inside traces from the initial state (each step compared); non-trivial = distinct graph edges replayed on the real code whose action changed the bucket, a mark age, the listing or the view")
+		"inside traces from the initial state (each step compared); per model configuration the real compactor runs one fault-free main-loop iteration per tick on real blocks isomorphic to the model's catalogue and its " +
+		"mutating bucket operations, abstracted into UploadData/UploadMeta/MarkSource/Clean, must be the projection of a path of the state graph (program order of the Compactor process); " +
+		"non-trivial = distinct graph edges replayed on the real code whose action changed the bucket, a mark age, the listing or the view, plus every real compactor action validated against the graph")
 	r.Assume(
-		"the protocol is the model Compaction.tla: a fixed compaction schedule (s1+s2 -> r, then r+s3 -> t), uploads are data-then-meta, sources are marked only after the result's meta.json is uploaded, the cleaner may run at any time, the gateway syncs at least every L ticks and a sync takes at most one tick",
+		"the protocol is the model Compaction.tla: a fixed compaction schedule (s1+s2 -> r, then r+s3 -> t), the cleaner may run at any time, the gateway syncs at least every L ticks and a sync takes at most one tick; " +
+			"the order of the compactor's steps (data, then meta.json, then the marks of the sources; Clean only of blocks marked for longer than the delete delay) is NOT assumed: it is checked on the real compactor's operation log of fault-free iterations (checks/c29/rig wiring of runCompact, drift-checked; downsampling is a no-op for the small blocks)",
 		"one tick = max(delete-delay, ignore-deletion-marks-delay)/N; delete-delay and ignore-deletion-marks-delay are exact in ticks (floor is exact for 'age > delay' on whole-tick ages), the sync period 15m is rounded UP to one tick",
-		"conformance is checked on traces of the model executed on the real components with a virtual clock; BestEffortCleanAbortedPartialUploads, retention and the planner are not part of the model; installing a listing as the gateway's view is done by the harness (BucketStore.SyncBlocks is not driven)",
+		"conformance is checked on traces of the model executed on the real components with a virtual clock, and on the real compactor's fault-free cycles (where retention, BestEffortCleanAbortedPartialUploads, garbage collection and the planner run and must not produce any operation the model does not have); compactor crashes and faulty iterations are not part of the model; installing a listing as the gateway's view is done by the harness (BucketStore.SyncBlocks is not driven)",
 		"the real components get the real flag durations; the gateway's filter chain is built in the order parsed from cmd/thanos/store.go; fetch concurrency 4 instead of 32",
 	)
 	r.Set("wiring", fmt.Sprintf("%+v", w))
